@@ -254,9 +254,13 @@ def _r1(ctx):
         for t, seq in list(zip(it[1][1], itx[2]))[1:]:
             b2, ex = J.elementwise(seq, svar)
             if b2 != base:
-                ctx.bad("R1", f"{fn}:species-loop", (PHYS, it[5]),
-                        "the species and the abundance symbols paired by zip() do not come from the same sequence",
-                        expected=f"zip({J.show(base)}, {J.show(base)} | map(..))", found=J.show(itx))
+                # wrong when both are recognisably views of ONE list of which one side is filtered / re-ordered; a second sequence
+                # that is not understood as a map over anything is not evidence
+                same_root = J.unfilter(b2)[0] == J.unfilter(base)[0] and J.path(J.unfilter(base)[0]) is not None
+                (ctx.bad if same_root else ctx.unrec)("R1", f"{fn}:species-loop", (PHYS, it[5]),
+                        "the species and the abundance symbols paired by zip() do not come from the same sequence" if same_root else
+                        f"how the abundance symbols paired by zip() derive from the species list is not understood: {J.show(seq)[:120]}",
+                        **({"expected": f"zip({J.show(base)}, {J.show(base)} | map(..))", "found": J.show(itx)} if same_root else {}))
                 return
             env2[t[1]] = ex
     elif it[1][0] == "name":
